@@ -332,7 +332,7 @@ CHECKS = {
                      'first_yield_wins', 'yield_is_result', 'result_is_yielded', 'chain_stops_at_stopiter', 'chain_passes_other_errors', 'chain_visits_next',
                      'iterators_keep_identity_and_code', 'next_keeps_identity_and_code',
                      # a chain over any source = successive next steps up to the first exhaustion (sequential specification)
-                     'next_of_iter_value', 'next_of_iter_stop', 'next_of_iter_error', 'list_chain_src', 'list_chain_over_iterator', 'copy_keeps_original']],
+                     'next_of_iter_value', 'next_of_iter_stop', 'next_of_iter_error', 'list_chain_src', 'srcListRun_of_loop', 'reduce_chain_src', 'srcReduceRun_of_loop', 'list_chain_over_iterator', 'copy_keeps_original']],
         'harness': ['C14'],
         'shards': 14,
         'spec_is_function': True,
